@@ -358,7 +358,16 @@ class AM:
         if exp is None:
             require(is_raised(r, ValueError), 'astype to a dtype that cannot hold an item must raise', got=r if is_raised(r) else r.tolist()[:6], src=self.dt.spec, dst=nd.spec)
         else:
-            require(not is_raised(r) and r.data.bin == exp, 'astype does not convert the items value by value', got=r if is_raised(r) else r.data.bin[:80], expected=exp[:80], src=self.dt.spec, dst=nd.spec)
+            require(not is_raised(r) and len(r.data) == len(exp), 'astype does not convert the items value by value', got=r if is_raised(r) else len(r.data), expected=len(exp), src=self.dt.spec, dst=nd.spec)
+            got = r.data.bin
+            for i, v in enumerate(vals):
+                g, e = got[i * nd.w:(i + 1) * nd.w], exp[i * nd.w:(i + 1) * nd.w]
+                if isinstance(v, float) and math.isnan(v):
+                    # a NaN stays a NaN; which NaN (sign, payload) is not a value
+                    gv = nd.dec(g)
+                    require(isinstance(gv, float) and math.isnan(gv), 'astype turned a NaN item into a number', got=g, src=self.dt.spec, dst=nd.spec)
+                else:
+                    require(g == e, 'astype does not convert the items value by value', item=i, got=g, expected=e, value=v, src=self.dt.spec, dst=nd.spec)
             require(r is not self.a, 'astype must return a new Array')
 
     def do_set_dtype(self, dj):
